@@ -7,6 +7,8 @@
 //!   thread's tally is read with `thread_alloc_info()`.
 //! * `prof`    — C09: request sequences with scripted inner return values; the
 //!   mock's call log and the values the profiler returned are printed.
+//! * `record`  — C10, the recording step: a real `Bencher` run on 1..3 threads; per-round
+//!   per-thread tallied operations and the dump of `alloc_info_by_sample`.
 //! * `churn`   — C09, run-time part: runs `hx-alloc-global` (src/bin) as a subprocess.
 //!
 //! `PROF` is *not* the global allocator of this process, and `Mock` never
@@ -293,6 +295,241 @@ fn prof(line: &str) -> String {
     }
 }
 
+// ---------------------------------------------------------------------------
+// record: C10, the recording step — what becomes of each thread's snapshot
+// ---------------------------------------------------------------------------
+//
+// A real `Bencher` run (hook `run_bencher`) on 1..3 threads under the virtual
+// clock. The benched closure advances its thread's clock by `step` ticks and,
+// as its thread's behaviour says, calls `PROF` with thread-identifying sizes
+// (thread t: 16*(t+1) bytes). Every call is logged; together with the
+// TALLY_CLEAR / TALLY_SNAPSHOT markers of the crate this gives, per round and
+// thread, the operations that were tallied. The line printed is that history
+// plus the dump of `time_samples.len()` and `alloc_info_by_sample`.
+
+const EV_CALL: u8 = v::ev::USER;
+
+#[derive(Clone, Debug)]
+struct Behaviour {
+    /// 0 never, 1 always, 2 first:A (call index < A), 3 after:A, 4 every:M
+    kind: u8,
+    arg: u64,
+    /// a alloc, d alloc+dealloc, r alloc+realloc to twice the size, z alloc_zeroed, f dealloc only
+    flavour: u8,
+}
+
+struct RecCfg {
+    step: u64,
+    beh: Vec<Behaviour>,
+}
+
+static REC_CFG: std::sync::Mutex<Option<RecCfg>> = std::sync::Mutex::new(None);
+static REC_CASE: std::sync::atomic::AtomicU64 = std::sync::atomic::AtomicU64::new(0);
+
+thread_local! {
+    static REC_CALLS: Cell<(u64, u64)> = const { Cell::new((0, 0)) };
+}
+
+fn rec_call() {
+    let t = v::thread_index() as usize;
+    let case = REC_CASE.load(std::sync::atomic::Ordering::SeqCst);
+    let c = REC_CALLS.with(|x| {
+        let (id, n) = x.get();
+        let n = if id == case { n } else { 0 };
+        x.set((case, n + 1));
+        n
+    });
+    let (step, b) = {
+        let g = REC_CFG.lock().unwrap();
+        let cfg = g.as_ref().expect("cfg");
+        (cfg.step, cfg.beh[t].clone())
+    };
+    let active = match b.kind {
+        0 => false,
+        1 => true,
+        2 => c < b.arg,
+        3 => c >= b.arg,
+        _ => c % b.arg.max(1) == 0,
+    };
+    if active {
+        let bytes = 16 * (t + 1);
+        let l = Layout::from_size_align(bytes, 8).expect("layout");
+        unsafe {
+            match b.flavour {
+                b'a' => {
+                    let _ = PROF.alloc(l);
+                }
+                b'd' => {
+                    let _ = PROF.alloc(l);
+                    PROF.dealloc(fake_ptr(1), l);
+                }
+                b'r' => {
+                    let _ = PROF.alloc(l);
+                    let _ = PROF.realloc(fake_ptr(1), l, 2 * bytes);
+                }
+                b'z' => {
+                    let _ = PROF.alloc_zeroed(l);
+                }
+                _ => PROF.dealloc(fake_ptr(1), l),
+            }
+        }
+        v::log_event(EV_CALL, b.flavour as u64, bytes as u64);
+    } else {
+        v::log_event(EV_CALL, 0, 0);
+    }
+    v::vclock_advance(step);
+}
+
+fn flavour_tokens(f: u64, bytes: u64) -> String {
+    match f as u8 {
+        b'a' => format!("a{bytes}"),
+        b'd' => format!("a{bytes}+d{bytes}"),
+        b'r' => format!("a{bytes}+r{bytes},{}", 2 * bytes),
+        b'z' => format!("z{bytes}"),
+        _ => format!("d{bytes}"),
+    }
+}
+
+fn record(line: &str) -> String {
+    let mut it = line.split(' ').filter(|t| !t.is_empty());
+    if !build_ok(it.next().expect("flag")) {
+        return "build-mismatch".into();
+    }
+    let (mut threads, mut n, mut size, mut step) = (1usize, 3u32, 0u32, 1000u64);
+    let mut beh: Vec<Behaviour> = Vec::new();
+    for kv in it {
+        let (k, val) = kv.split_once('=').expect("k=v");
+        match k {
+            "t" => threads = val.parse().expect("t"),
+            "n" => n = val.parse().expect("n"),
+            "s" => size = val.parse().expect("s"),
+            "step" => step = val.parse().expect("step"),
+            "b" => {
+                for b in val.split(',') {
+                    let p: Vec<&str> = b.split(':').collect();
+                    beh.push(match p[0] {
+                        "never" => Behaviour { kind: 0, arg: 0, flavour: b'a' },
+                        "always" => Behaviour { kind: 1, arg: 0, flavour: p[1].as_bytes()[0] },
+                        "first" => Behaviour { kind: 2, arg: p[1].parse().expect("A"), flavour: p[2].as_bytes()[0] },
+                        "after" => Behaviour { kind: 3, arg: p[1].parse().expect("A"), flavour: p[2].as_bytes()[0] },
+                        "every" => Behaviour { kind: 4, arg: p[1].parse().expect("M"), flavour: p[2].as_bytes()[0] },
+                        _ => panic!("bad behaviour {b}"),
+                    });
+                }
+            }
+            _ => panic!("unknown key {k}"),
+        }
+    }
+    assert_eq!(beh.len(), threads, "one behaviour per thread");
+    let mut options = divan::__private::BenchOptions::default();
+    options.sample_count = Some(n);
+    options.sample_size = if size == 0 { None } else { Some(size) };
+
+    *REC_CFG.lock().unwrap() = Some(RecCfg { step, beh });
+    REC_CASE.fetch_add(1, std::sync::atomic::Ordering::SeqCst);
+    const FREQ: u64 = 1_000_000_000_000; // one tick = one picosecond
+    v::set_precision_override(Some(1000));
+    v::set_overhead_override(Some([0; 4]));
+    v::log_take();
+    v::log_reserve(1 << 16);
+    v::thread_alloc_clear();
+    v::vclock_set(0);
+    v::vclock_enable(FREQ, 0);
+    v::log_enable(true);
+    let res = catch_unwind(AssertUnwindSafe(|| {
+        v::run_bencher(
+            &v::RunConfig { options: &options, threads, is_test: false, tsc_frequency: Some(FREQ), compute_stats: false },
+            &|bencher| bencher.bench(rec_call),
+        )
+    }));
+    v::log_enable(false);
+    v::vclock_disable();
+    v::set_precision_override(None);
+    v::set_overhead_override(None);
+    let log = v::log_take();
+    let dump = match res {
+        Ok(d) => d,
+        Err(e) => return format!("panic {}", hxlib::classify_panic(hxlib::panic_msg(&e))),
+    };
+
+    // Per thread: the segments TALLY_CLEAR .. TALLY_SNAPSHOT with the calls in between.
+    let mut segs: Vec<Vec<(u64, Vec<String>)>> = vec![Vec::new(); threads];
+    let mut open: Vec<bool> = vec![false; threads];
+    let mut stray = 0usize;
+    for e in &log {
+        let t = e.thread as usize;
+        if t >= threads {
+            stray += 1;
+            continue;
+        }
+        match e.kind {
+            v::ev::TALLY_CLEAR => {
+                if open[t] {
+                    stray += 1;
+                }
+                open[t] = true;
+                segs[t].push((0, Vec::new()));
+            }
+            v::ev::TALLY_SNAPSHOT => {
+                if !open[t] {
+                    stray += 1;
+                }
+                open[t] = false;
+            }
+            EV_CALL => {
+                if !open[t] {
+                    stray += 1;
+                    continue;
+                }
+                let seg = segs[t].last_mut().unwrap();
+                seg.0 += 1;
+                if e.a != 0 {
+                    seg.1.push(flavour_tokens(e.a, e.b));
+                }
+            }
+            _ => {}
+        }
+    }
+    let rounds = segs[0].len();
+    if stray != 0 || open.iter().any(|&o| o) || segs.iter().any(|s| s.len() != rounds) {
+        return format!("ragged-history stray={stray}");
+    }
+    let mut rs: Vec<String> = Vec::new();
+    for r in 0..rounds {
+        let mut parts = vec![segs[0][r].0.to_string()];
+        for t in 0..threads {
+            if segs[t][r].0 != segs[0][r].0 {
+                return "ragged-history sizes".into();
+            }
+            // run-length compression of equal consecutive call tokens
+            let toks = &segs[t][r].1;
+            let mut out: Vec<String> = Vec::new();
+            let mut i = 0;
+            while i < toks.len() {
+                let mut j = i;
+                while j < toks.len() && toks[j] == toks[i] {
+                    j += 1;
+                }
+                out.push(format!("{}*{}", j - i, toks[i]));
+                i = j;
+            }
+            parts.push(if out.is_empty() { "-".into() } else { out.join("&") });
+        }
+        rs.push(parts.join("/"));
+    }
+    let recs: Vec<String> = dump
+        .alloc_infos
+        .iter()
+        .map(|(k, i)| format!("{}:{}", k, fmt_info(i)[3..].replace(' ', ",")))
+        .collect();
+    format!(
+        "rounds={} len={} rec={}",
+        if rs.is_empty() { "-".into() } else { rs.join(";") },
+        dump.durations.len(),
+        if recs.is_empty() { "-".into() } else { recs.join(";") }
+    )
+}
+
 /// `churn`: runs the sibling binary `hx-alloc-global <threads> <rounds> <seed>`
 /// (its own process: it installs its own `#[global_allocator]`).
 fn churn(line: &str) -> String {
@@ -311,6 +548,7 @@ fn churn(line: &str) -> String {
 fn dispatch(mode: &str, line: &str) -> String {
     match mode {
         "churn" => churn(line),
+        "record" => record(line),
         "tally" => tally(line),
         "threads" => threads(line),
         "prof" => prof(line),
